@@ -70,6 +70,7 @@ class Job:
         self.replay = replay
         self.object_bits = object_bits
         self.unwindset = list(unwindset)
+        self.thorough_unwind = None       # optional: a larger --unwind for the thorough tier (set after construction)
         self.no_loop_contracts = no_loop_contracts
         self.extra_cc = list(extra_cc)
         self.entry = entry
@@ -331,8 +332,9 @@ def run_job(job, tier, inc_extra, keep_dir=None):
         cb = ['cbmc', b] + ([] if job.text_ui else ['--json-ui']) + list(job.flags)
         if '--sat-solver' not in job.flags:
             cb += ['--sat-solver', DEFAULT_SAT]   # measured on the C14 / C05 / C06 jobs: cadical is 2-9x faster than the built-in minisat2
-        if job.unwind is not None:
-            cb += ['--unwind', str(job.unwind), '--unwinding-assertions']
+        unw = job.thorough_unwind if (tier == 'thorough' and getattr(job, 'thorough_unwind', None)) else job.unwind
+        if unw is not None:
+            cb += ['--unwind', str(unw), '--unwinding-assertions']
         for u in job.unwindset:
             cb += ['--unwindset', u]
         if job.unwindset and job.unwind is None and '--no-unwinding-assertions' not in job.flags:
